@@ -111,11 +111,12 @@ KeysStep(e) ==
       [] e.ev = "EscDecode" ->
            <<st, IF e.evs = <<<<"key", 27, 0, 0>>>> /\ e.left = 0 THEN {} ELSE {Dev("C03.esc", "lone_esc", e.evs)}>>
       [] e.ev = "AfterEsc" ->
-           \* after a lone ESC (or ESC ESC) was delivered by the timeout, a sequence decodes as on a fresh decoder
+           \* after a lone ESC (or ESC ESC) was delivered by the timeout, or after a complete Alt+key sequence, a sequence
+           \* decodes as on a fresh decoder
            LET plain == {d \in {st.dec[i] : i \in 1..Len(st.dec)} : d[1] = e.bytes} IN
            <<st, Robust(e, "C03")
              \cup (IF plain = {} \/ \E d \in plain : e.evs = d[2] THEN {}
-                   ELSE {Dev("C03.esc", "state_after_lone_esc", <<e.prior, e.bytes, e.evs>>)})>>
+                   ELSE {Dev("C03.esc", "state_after_earlier_input", <<e.prior, e.bytes, e.evs>>)})>>
       [] e.ev = "LiveSplit" ->
            \* a key typed at a live screen in two reads within the timeout, a resize notification between them
            LET plain == {d \in {st.dec[i] : i \in 1..Len(st.dec)} : d[1] = e.bytes} IN
